@@ -18,7 +18,7 @@ META = {
     "note": "schedules are exhaustive in the model (one reader, one committing writer); on the real code one to a few witness "
             "schedules per reachable vector are replayed; vectors that need a pause inside a struct literal or a method chain "
             "are model-only (hooks are add-only statements). Trusted: TLC, the H3 pause dispatcher, concread's snapshot "
-            "contract. Three genuine defects are reproduced and listed as known findings.",
+            "contract. Three genuine defects are reproduced and listed as known findings (signatures carry the commit order observed).",
     "design_ref": "DESIGN.md section 6, C06",
     "technique": "TLA+ interleaving model (KTxn section C) exhaustively explored by TLC; witness schedule per reachable snapshot "
                  "vector replayed on the real server through hook H3 pause points, observations validated by a TLC trace spec",
